@@ -217,3 +217,88 @@ Fixpoint opt_list_eqb (a b : list (option (nat * nat))) : bool :=
 
 Definition spec_C20_lops (depth : nat) (ops : list lop) (obs : list (option (nat * nat))) : bool :=
   opt_list_eqb (spec_run_lops (repeat [] depth) ops) obs.
+
+(* ---------------------------------------------------------------------------------------------
+   Lifecycle histories on one container: Register, Start and Close in any order, and a Register
+   attempted by another goroutine WHILE Start is executing (during the Init or the Run call of
+   component [k]).  App.Start holds the container's read lock for its whole duration and Register
+   needs the write lock, so such a registration takes effect only after that Start returned: the
+   late component takes no part in it (neither Init nor Run), and is in the list afterwards. *)
+Inductive phase := PInit | PRun.
+
+Inductive hop :=
+| HReg (c : comp)
+| HStart (late : option (phase * nat * comp))
+| HClose.
+
+Inductive hres := HRReg | HRStart (r : start_result) | HRClose (errs : list nat).
+
+Definition trigger_event (ph : phase) (k : nat) : event :=
+  match ph with PInit => EInit k | PRun => ERun k end.
+
+(* the Init / Run call during which the late registration is attempted was made at all *)
+Definition reached (ev : list event) (ph : phase) (k : nat) : bool :=
+  existsb (event_eqb (trigger_event ph k)) ev.
+
+Definition after_start (cs : list comp) (ev : list event) (late : option (phase * nat * comp)) : list comp :=
+  match late with
+  | Some (ph, k, c) => if reached ev ph k then cs ++ [c] else cs
+  | None => cs
+  end.
+
+Fixpoint run_hops (cs : list comp) (ops : list hop) : list (list event * hres) :=
+  match ops with
+  | [] => []
+  | HReg c :: r => ([], HRReg) :: run_hops (cs ++ [c]) r
+  | HStart late :: r =>
+      let '(ev, res) := start cs in
+      (ev, HRStart res) :: run_hops (after_start cs ev late) r
+  | HClose :: r =>
+      let '(ev, errs) := close cs in (ev, HRClose errs) :: run_hops cs r
+  end.
+
+(* "no use before init", as a discipline on ANY event log of one Start: every Run is preceded by the
+   Init of the same component, and no Init happens once something runs *)
+Fixpoint ordered_from (inited : list nat) (running : bool) (ev : list event) : bool :=
+  match ev with
+  | [] => true
+  | EInit i :: r => negb running && ordered_from (i :: inited) running r
+  | ERun i :: r => existsb (Nat.eqb i) inited && ordered_from inited true r
+  | EClose _ :: r => ordered_from inited running r
+  end.
+
+Definition ordered (ev : list event) : bool := ordered_from [] false ev.
+
+Definition event_idx (e : event) : nat := match e with EInit i | ERun i | EClose i => i end.
+
+(* what one Start of a container holding [cs] may show when a registration lands during it:
+   on the components registered before it began exactly the behaviour of spec_start; whatever else
+   appears in the log obeys the discipline; nothing is closed that was not registered before *)
+Definition spec_C20_start_late (cs : list comp) (obs : list event * start_result) : bool :=
+  spec_C20_start cs (filter (fun e => Nat.ltb (event_idx e) (length cs)) (fst obs), snd obs)
+  && ordered (fst obs).
+
+Definition hres_eqb (a b : hres) : bool :=
+  match a, b with
+  | HRReg, HRReg => true
+  | HRStart x, HRStart y => result_eqb x y
+  | HRClose x, HRClose y => list_eqb Nat.eqb x y
+  | _, _ => false
+  end.
+
+Fixpoint spec_C20_hops (cs : list comp) (ops : list hop) (obs : list (list event * hres)) : bool :=
+  match ops, obs with
+  | [], [] => true
+  | HReg c :: r, (ev, HRReg) :: q => match ev with [] => spec_C20_hops (cs ++ [c]) r q | _ => false end
+  | HStart late :: r, (ev, HRStart res) :: q =>
+      spec_C20_start_late cs (ev, res) && spec_C20_hops (after_start cs ev late) r q
+  | HClose :: r, (ev, HRClose errs) :: q => spec_C20_close cs (ev, errs) && spec_C20_hops cs r q
+  | _, _ => false
+  end.
+
+Fixpoint hops_eqb (a b : list (list event * hres)) : bool :=
+  match a, b with
+  | [], [] => true
+  | (e1, r1) :: p, (e2, r2) :: q => list_eqb event_eqb e1 e2 && hres_eqb r1 r2 && hops_eqb p q
+  | _, _ => false
+  end.
